@@ -115,7 +115,8 @@ impl Check for TxEnumCheck {
         // sample until the history contains a transaction with a body (bounded)
         for _ in 0..20 {
             let c = gen_case("C07", rng);
-            if split(&c).is_some() {
+            // (outsized histories are left to the sampling family: every variant re-runs the whole history)
+            if c.steps.len() <= 60 && split(&c).is_some() {
                 return c;
             }
         }
@@ -135,7 +136,10 @@ impl Check for TxEnumCheck {
         // (name, variant, twin)
         let mut variants: Vec<(String, Case, Option<Case>)> = Vec::new();
         variants.push(("commit".into(), assemble(cfg, vec![prefix.clone(), vec![Step::TxBegin], flat(&units), vec![Step::TxCommit], suffix.clone()]), None));
-        for i in 0..=k {
+        // every abandonment point of bodies of up to 24 units; of longer ones (outsized runs) the
+        // first nine, the last nine and eight evenly spaced ones in between
+        let points: Vec<usize> = if k <= 24 { (0..=k).collect() } else { (0..=k).filter(|&i| i <= 8 || i + 8 >= k || (i - 8) % ((k - 16) / 8).max(1) == 0).collect() };
+        for i in points.iter().copied() {
             let twin_abandon = assemble(cfg, vec![prefix.clone(), aux(&units[..i]), suffix.clone()]);
             variants.push((format!("drop after {i} of {k} operations"), assemble(cfg, vec![prefix.clone(), vec![Step::TxBegin], flat(&units[..i]), vec![Step::TxDrop], suffix.clone()]), Some(twin_abandon.clone())));
             variants.push((
@@ -149,7 +153,7 @@ impl Check for TxEnumCheck {
                 Some(assemble(cfg, vec![prefix.clone(), vec![Step::TxBegin], aux(&units[..i]), flat(&units[i..]), vec![Step::TxCommit], suffix.clone()])),
             ));
         }
-        counters.add("enum.crash_points", (k + 1) as u64);
+        counters.add("enum.crash_points", points.len() as u64);
         let mut violation = None;
         for (name, v, twin) in variants {
             let r = run_case(&v);
